@@ -81,6 +81,10 @@ func (n *Node) PreflightHead(contract types.Address) (pf *PreflightFailure) {
 	if ex == nil || ex.Transaction == nil {
 		return &PreflightFailure{Contract: contract, Send: sb, Err: fmt.Errorf("no transaction returned")}
 	}
+	if n.MethodErrs == nil {
+		n.MethodErrs = map[types.Hash]error{}
+	}
+	n.MethodErrs[sb.Hash] = ex.ReturnedError
 	return nil
 }
 
